@@ -26,6 +26,15 @@
 (* decisions (each decision keeps only its own length, like a Go slice      *)
 (* header over a shared array).  The TRUE variant must violate              *)
 (* RoutedWithinOwnerFamily (anti-vacuity: the window is real).              *)
+(*                                                                         *)
+(* The read strategy is configuration of a RUNNING processor: ConfigUpdate  *)
+(* (proc.OnSvcConfigUpdate) may change it between requests and while        *)
+(* decisions of other sessions are in flight.  A decision reads the         *)
+(* strategy once (Lookup of a read-only request); it is judged by the       *)
+(* strategy that was in force at that moment.  StickyStrategy = TRUE models *)
+(* decisions that keep reading the configuration object of start-up (the    *)
+(* update is published to an object the upstream does not look at); it must *)
+(* violate RoutedWithinOwnerFamily.                                         *)
 (***************************************************************************)
 EXTENDS Naturals, Sequences, FiniteSets, TLC
 
@@ -35,7 +44,9 @@ CONSTANTS Sessions,       \* downstream sessions of one processor
           Strategies,     \* read strategies explored (chosen once per behaviour: it is configuration)
           Kinds,          \* subset of {"read", "write", "unsupported", "local"} the sessions issue
           MaxReq,         \* requests per session
-          SharedScratch   \* see above
+          MaxUpdates,     \* run-time changes of the read strategy
+          SharedScratch,  \* see above
+          StickyStrategy  \* see above
 
 ASSUME Kinds \subseteq {"read", "write", "unsupported", "local"}
 
@@ -64,7 +75,12 @@ Allowed(st, m, kind) ==
     [] kind = "write" -> {M(m)}
     [] kind = "read" -> IF st = "MASTER" THEN {M(m)} ELSE {M(m)} \cup ReplicasOf(m)
 
-VARIABLES strategy,   \* the configured read strategy
+VARIABLES strategy,   \* the read strategy in force (configuration of the running processor)
+          strategy0,  \* the read strategy the processor was started with
+          updates,    \* run-time changes so far
+          used,       \* per session: the strategy its decision in hand read
+          inforce,    \* per session (ghost): the strategy that was in force when it read
+          updInFlight,\* ghost: the last ConfigUpdate happened while a decision was in flight
           pc,         \* per session: "idle" | "dispatch" | "lookup" | "build"
           req,        \* per session: [sh, kind] of the request in hand
           n,          \* per session: length of its candidate list (slice header)
@@ -74,12 +90,17 @@ VARIABLES strategy,   \* the configured read strategy
           reply,      \* per session: how the proxy itself answered the request in hand ("-", "error", "local")
           left        \* per session: requests still to issue
 
-vars == <<strategy, pc, req, n, own, scratch, dest, reply, left>>
+vars == <<strategy, strategy0, updates, used, inforce, updInFlight, pc, req, n, own, scratch, dest, reply, left>>
 
 EmptyBuf == [i \in 1..MaxC |-> None]
 
 Init ==
   /\ strategy \in Strategies
+  /\ strategy0 = strategy
+  /\ updates = 0
+  /\ used = [s \in Sessions |-> strategy]
+  /\ inforce = [s \in Sessions |-> strategy]
+  /\ updInFlight = FALSE
   /\ pc = [s \in Sessions |-> "idle"]
   /\ req = [s \in Sessions |-> [sh |-> "-", kind |-> "-"]]
   /\ n = [s \in Sessions |-> 0]
@@ -96,7 +117,7 @@ Issue(s, m, k) ==
   /\ dest' = [dest EXCEPT ![s] = None]
   /\ reply' = [reply EXCEPT ![s] = "-"]
   /\ pc' = [pc EXCEPT ![s] = "dispatch"]
-  /\ UNCHANGED <<strategy, n, own, scratch>>
+  /\ UNCHANGED <<strategy, strategy0, updates, used, inforce, updInFlight, n, own, scratch>>
 
 \* handler := handlers[lower(name)]; none -> "-ERR unsupported command"; ping, time, ... -> answered here
 Dispatch(s) ==
@@ -105,7 +126,7 @@ Dispatch(s) ==
      THEN pc' = [pc EXCEPT ![s] = "lookup"] /\ UNCHANGED reply
      ELSE /\ pc' = [pc EXCEPT ![s] = "idle"]
           /\ reply' = [reply EXCEPT ![s] = IF req[s].kind = "unsupported" THEN "error" ELSE "local"]
-  /\ UNCHANGED <<strategy, req, n, own, scratch, dest, left>>
+  /\ UNCHANGED <<strategy, strategy0, updates, used, inforce, updInFlight, req, n, own, scratch, dest, left>>
 
 \* inst := u.slots[slot]; if !req.IsReadOnly() { return inst.Addr }
 Lookup(s) ==
@@ -113,40 +134,54 @@ Lookup(s) ==
   /\ IF req[s].kind = "write"
      THEN /\ dest' = [dest EXCEPT ![s] = M(req[s].sh)]
           /\ pc' = [pc EXCEPT ![s] = "idle"]
-          /\ UNCHANGED <<n, own>>
+          /\ UNCHANGED <<n, own, used, inforce>>
      ELSE /\ pc' = [pc EXCEPT ![s] = "build"]
+          \* readStrategy = u.cfg.GetRedisOption().ReadStrategy
+          /\ used' = [used EXCEPT ![s] = IF StickyStrategy THEN strategy0 ELSE strategy]
+          /\ inforce' = [inforce EXCEPT ![s] = strategy]
           /\ n' = [n EXCEPT ![s] = 0]                 \* candidates = nil  /  scratch[:0]
           /\ own' = [own EXCEPT ![s] = EmptyBuf]
           /\ UNCHANGED dest
-  /\ UNCHANGED <<strategy, req, scratch, reply, left>>
+  /\ UNCHANGED <<strategy, strategy0, updates, updInFlight, req, scratch, reply, left>>
 
 \* candidates = append(candidates, ...)
 Store(s) ==
   /\ pc[s] = "build"
-  /\ n[s] < Len(Cands(strategy, req[s].sh))
-  /\ LET c == Cands(strategy, req[s].sh)[n[s] + 1] IN
+  /\ n[s] < Len(Cands(used[s], req[s].sh))
+  /\ LET c == Cands(used[s], req[s].sh)[n[s] + 1] IN
      IF SharedScratch
      THEN scratch' = [scratch EXCEPT ![n[s] + 1] = c] /\ UNCHANGED own
      ELSE own' = [own EXCEPT ![s][n[s] + 1] = c] /\ UNCHANGED scratch
   /\ n' = [n EXCEPT ![s] = @ + 1]
-  /\ UNCHANGED <<strategy, pc, req, dest, reply, left>>
+  /\ UNCHANGED <<strategy, strategy0, updates, used, inforce, updInFlight, pc, req, dest, reply, left>>
 
 \* i = now % len(candidates); return candidates[i]
 Pick(s, i) ==
   /\ pc[s] = "build"
-  /\ n[s] = Len(Cands(strategy, req[s].sh))
+  /\ n[s] = Len(Cands(used[s], req[s].sh))
   /\ i \in 1..n[s]
   /\ dest' = [dest EXCEPT ![s] = IF SharedScratch THEN scratch[i] ELSE own[s][i]]
   /\ pc' = [pc EXCEPT ![s] = "idle"]
-  /\ UNCHANGED <<strategy, req, n, own, scratch, reply, left>>
+  /\ UNCHANGED <<strategy, strategy0, updates, used, inforce, updInFlight, req, n, own, scratch, reply, left>>
+
+\* proc.OnSvcConfigUpdate on the running processor: the read strategy changes
+ConfigUpdate(st) ==
+  /\ updates < MaxUpdates
+  /\ st # strategy
+  /\ \E s \in Sessions : left[s] > 0 \/ pc[s] # "idle"      \* (an update after the last decision changes nothing observable)
+  /\ strategy' = st
+  /\ updates' = updates + 1
+  /\ updInFlight' = (\E s \in Sessions : pc[s] # "idle")
+  /\ UNCHANGED <<strategy0, used, inforce, pc, req, n, own, scratch, dest, reply, left>>
 
 Next ==
-  \E s \in Sessions :
-     \/ \E m \in Shards, k \in Kinds : Issue(s, m, k)
-     \/ Dispatch(s)
-     \/ Lookup(s)
-     \/ Store(s)
-     \/ \E i \in 1..MaxC : Pick(s, i)
+  \/ \E s \in Sessions :
+        \/ \E m \in Shards, k \in Kinds : Issue(s, m, k)
+        \/ Dispatch(s)
+        \/ Lookup(s)
+        \/ Store(s)
+        \/ \E i \in 1..MaxC : Pick(s, i)
+  \/ \E st \in Strategies : ConfigUpdate(st)
 
 Spec == Init /\ [][Next]_vars
 
@@ -154,7 +189,7 @@ Done == \A s \in Sessions : pc[s] = "idle" /\ left[s] = 0
 
 ----------------------------------------------------------------------------
 TypeOK ==
-  /\ strategy \in Strategies
+  /\ strategy \in Strategies /\ strategy0 \in Strategies /\ updates \in 0..MaxUpdates
   /\ \A s \in Sessions : /\ pc[s] \in {"idle", "dispatch", "lookup", "build"}
                          /\ n[s] \in 0..MaxC
                          /\ dest[s] \in Nodes \cup {None}
@@ -173,9 +208,9 @@ WritesToOwningMaster ==
   \A s \in Sessions : (dest[s] # None /\ req[s].kind = "write") => dest[s] = M(req[s].sh)
 
 \* C14: "only read-only commands may go to replicas, and then only to replicas of the owning master and only
-\* when the strategy permits it"
+\* when the strategy permits it" - the strategy in force when the decision was taken
 RoutedWithinOwnerFamily ==
-  \A s \in Sessions : dest[s] # None => dest[s] \in Allowed(strategy, req[s].sh, req[s].kind)
+  \A s \in Sessions : dest[s] # None => dest[s] \in Allowed(inforce[s], req[s].sh, req[s].kind)
 
 ----------------------------------------------------------------------------
 \* windows (must be reachable; the behaviours run on the code are stratified over them)
@@ -185,6 +220,8 @@ W_OverlapForeign == \E s, t \in Sessions : s # t /\ Deciding(s) /\ Deciding(t) /
 W_OverlapSame    == \E s, t \in Sessions : s # t /\ Deciding(s) /\ Deciding(t) /\ req[s].sh = req[t].sh
 W_WriteDuringRead == \E s, t \in Sessions : s # t /\ Deciding(s) /\ pc[t] = "lookup" /\ req[t].kind = "write"
                                             /\ req[s].sh # req[t].sh
+W_UpdateDuringRouting == updInFlight /\ \E s \in Sessions : pc[s] = "build" /\ inforce[s] # strategy
+W_RouteAfterUpdate == updates > 0 /\ \E s \in Sessions : pc[s] = "build" /\ inforce[s] = strategy /\ strategy # strategy0
 W_RejectDuringRouting == \E s, t \in Sessions : s # t /\ InFlight(s) /\ pc[t] = "dispatch"
                                                 /\ req[t].kind \in {"unsupported", "local"}
 =============================================================================
